@@ -306,6 +306,20 @@ pub fn checks() -> Vec<Check> {
         budget_s: (55, 900),
     },
     Check {
+        id: "C18",
+        level: "model_checking",
+        stages: vec![
+            st("c18.elements", c18::elements, (0, 0), 3, "6 base documents (3 writer, 3 e57spec) x every insertion position inside every Structure/Vector/CompressedVector element outside prototypes x 88 local names (every name the reader searches for + an unknown one) x 4 foreign element shapes"),
+            st("c18.attributes", c18::attributes, (0, 0), 3, "6 base documents x every standard element x 6 foreign attributes (vx:type, vx:fileOffset, vx:recordCount, vx:length, vx:minimum, vx:precision)"),
+            st("c18.proto_extensions", c18::proto_extensions, (0, 0), 3, "extension attribute named like 6 standard attributes and 6 other accepted names x 5 namespace prefixes x every position in the prototype x optional second extension attribute: written by the real writer, read back exactly"),
+        ],
+        extra: None,
+        rule: "full products; the inserted content is always in a namespace different from the E57 namespace (prefix declared on the inserted element) and well-formed (checked with the independent parser); oracle = the report on the unmodified base document (root fields, every descriptor, points and blobs); evaluations = (position, name, shape) triples",
+        assumptions: &["foreign child elements are only inserted into container elements (type Structure/Vector/CompressedVector), never into scalar elements and never inside a prototype", "children of an inserted foreign element are prefixed too, i.e. really foreign"],
+        ignore_resource_deaths: false,
+        budget_s: (55, 900),
+    },
+    Check {
         id: "C14",
         level: "model_checking",
         stages: vec![st(
